@@ -21,6 +21,9 @@ const (
 	ps3ModeVolumeName = "PS3VOLUME"
 	consoleID         = "PlayStation3"
 
+	ps3TitleIDPrefixLen = 4
+	ps3ProductIDMaxLen  = 0x20
+
 	multiExtentPartSize    sizeBytes   = 0xFFFFF800
 	maxPartSize            sizeBytes   = 0xFFFFFFFF
 	basePadSectors         sizeSectors = 0x20
@@ -121,6 +124,11 @@ func (viso *VirtualISO) init() error {
 		gameCode, err = viso.getTitleID()
 		if err != nil {
 			return fmt.Errorf("getTitleID failed: %w", err)
+		}
+
+		// product id is a title id with dash after the 4th character, and it must fit to the field of sector 1
+		if len(gameCode) < ps3TitleIDPrefixLen || len(gameCode)+1 > ps3ProductIDMaxLen {
+			return fmt.Errorf("unexpected TITLE_ID length (%d)", len(gameCode))
 		}
 
 		volumeName = ps3ModeVolumeName
@@ -581,7 +589,7 @@ func (viso *VirtualISO) writeFSStructures(gameCode string) error {
 
 		infoSector := discInfoSector{
 			ConsoleID: consoleID,
-			ProductID: gameCode[:4] + "-" + gameCode[4:], // i.e. BCES-00104
+			ProductID: gameCode[:ps3TitleIDPrefixLen] + "-" + gameCode[ps3TitleIDPrefixLen:], // i.e. BCES-00104
 		}
 
 		_, err := io.ReadFull(rand.Reader, infoSector.Info[:])
